@@ -25,8 +25,8 @@ CLAIMS = {
  "C13": ("proof", "Kani harness-stated contracts with a counting mock CancelWalk on the real filter.rs and walk combinators + Verus lemma",
          "Partial: WHEN the real code asks for cancellation: a tree verdict cancels the input exactly once unless the entry is already tree residue, never for a file verdict / keep / Err, at most once per entry across stacked layers, and cancellation is forwarded to the input unchanged by every combinator; for negations with a real program (all four program shapes, the regex engine abstracted to an arbitrary oracle) a tree is discarded exactly when the EXHAUSTIVE program matched. That walkdir's skip_current_dir then prunes exactly that directory is assumed.",
          "walkdir::IntoIter::skip_current_dir semantics, WalkTree::is_dir bookkeeping, the glob walker's component-matching closure, the regex engine (oracle) and the exhaustive / non-exhaustive partition of FilterAny::any (C09 at tree level) assumed (T4)."),
- "C15": ("proof", "Kani harness-stated contracts (window membership) + Verus verbatim pivot functions + Verus window lemma",
-         "Depth window: pivot translation of minimum / maximum, the three constructors and the variance translation denote exactly the documented window for all usize inputs.",
+ "C15": ("proof", "Kani harness-stated contracts (window membership; Err passthrough of the real FilterEntry / Not over a mock input) + Verus verbatim pivot functions + Verus window lemma",
+         "Depth window: pivot translation of minimum / maximum, the three constructors and the variance translation denote exactly the documented window for all usize inputs; an error item (a link that re-enters its ancestors is reported as one) passes through negations and entry filters unchanged (the combinators' Err clause, shared with C20).",
          "Known finding C15.max-below-pivot. walkdir min/max depth semantics (A15), link behaviour, cycle detection and termination assumed (T4)."),
  "C16": ("proof", "Kani harness-stated contracts on the real one-layer transition and combinators over a mock input in every state + Verus lemmas for stacks of any length and order",
          "One layer is the lattice join keep < file < tree with the payload preserved and the filter observing every non-Err entry exactly once (also entries already discarded upstream); two stacked real FilterEntry layers; Verus lemmas lift the one-layer contract to any stack and show order independence.",
